@@ -55,6 +55,15 @@ fn malformed_by_rfc(is_arp: bool, b: &[u8]) -> Option<&'static str> {
     if total < (b[0] & 0xf) as usize * 4 {
         return Some("ipv4");
     }
+    // (a total length larger than the frame is not judged here: the stack's IPv4 decoder reads a byte iterator and
+    // cannot see the frame length; whether such a datagram must be dropped is not settled by C14's statement)
+    let frag = u16::from_be_bytes([b[6], b[7]]);
+    if (frag & 0x1fff) as usize * 8 + total > 65535 {
+        return Some("ipv4"); // a piece that ends beyond the largest datagram
+    }
+    if frag & 0x3fff != 0 {
+        return Some("fragment"); // a lone piece of a datagram whose other pieces never come: it must never be delivered
+    }
     if b[0] & 0xf != 5 {
         return None; // options: valid by RFC, outside this harness's judgement
     }
@@ -89,7 +98,7 @@ impl Check for MalformedFrames {
         "C14.frames"
     }
     fn rule(&self) -> String {
-        "generated: a small client/server TCP stream transfer over the full stack (as in C02, loss-free) plus a UDP listener on the server, and 1..10 raw frames injected by a third machine while the transfer runs: IPv4+UDP datagrams to the listener, IPv4+TCP segments addressed to the live connection's endpoints (or other ports) and ARP packets, each derived from a valid packet by truncation at any length, mutation of 1..3 header bytes, an extreme length / data-offset / version field, and sent to the server's or client's MAC or as a link broadcast; a frame is injected if it is malformed by the RFC layout as judged by the harness alone (too short for its header, version/IHL/total length inconsistent, UDP length or TCP data offset pointing outside the segment, invalid ARP operation) or if the stack's own decoder for some layer (called directly by the harness) rejects it; oracle: no injected payload ever reaches the UDP listener, the concurrent TCP transfer completes byte-exact, the run ends with the normal status, no task panics. non-trivial: at least one injected frame passes the IPv4 decoder and is rejected by the UDP or TCP decoder, or is a rejected ARP packet. distinct: hash of decoded case".into()
+        "generated: a small client/server TCP stream transfer over the full stack (as in C02, loss-free) plus a UDP listener on the server, and 1..10 raw frames injected by a third machine while the transfer runs: IPv4+UDP datagrams to the listener, IPv4+TCP segments addressed to the live connection's endpoints (or other ports) and ARP packets, each derived from a valid packet by truncation at any length, mutation of 1..3 header bytes, an extreme length / data-offset / version field, and sent to the server's or client's MAC or as a link broadcast; a frame is injected if it is malformed by the RFC layout as judged by the harness alone (too short for its header, version/IHL/total length inconsistent, a fragment ending beyond 65535 bytes, a lone fragment whose other pieces never come, UDP length or TCP data offset pointing outside the segment, invalid ARP operation) or if the stack's own decoder for some layer (called directly by the harness) rejects it; oracle: no injected payload ever reaches the UDP listener, the concurrent TCP transfer completes byte-exact, the run ends with the normal status, no task panics. non-trivial: at least one injected frame passes the IPv4 decoder and is rejected by the UDP or TCP decoder, or is a rejected ARP packet. distinct: hash of decoded case".into()
     }
     fn max_entropy(&self) -> usize {
         500
@@ -264,6 +273,17 @@ impl Check for MalformedFrames {
                     a
                 }),
                 (true, ArpPacket::new_request(2, Ipv4Address::new(client), Ipv4Address::new(server)).build()[..27].to_vec()),
+                // fragments: a piece that ends beyond 65535 ("ping of death"), lone first / middle / last pieces, and
+                // total-length fields that lie about the frame (longer, shorter, maximal)
+                (false, { let mut b = udp(16, 16); b[6] = 0x1f; b[7] = 0xff; b[2] = 0xff; b[3] = 0xff; b }),
+                (false, { let mut b = udp(16, 16); b[6] = 0x0d; b[7] = 0x00; b[2] = 0x98; b[3] = 0x24; b }),
+                (false, { let mut b = udp(16, 16); b[6] = 0x20; b[7] = 0x00; b }),
+                (false, { let mut b = udp(16, 16); b[6] = 0x20; b[7] = 0x07; b }),
+                (false, { let mut b = udp(16, 16); b[6] = 0x00; b[7] = 0x02; b }),
+                (false, { let mut b = udp(16, 16); b[6] = 0x1f; b[7] = 0xff; b }),
+                (false, { let mut b = udp(16, 16); b[2] = 0xff; b[3] = 0xff; b }),
+                (false, { let mut b = udp(16, 16); b[2] = 0; b[3] = 21; b }),
+                (false, { let mut b = tcp(0x50, 20, to_server); b[6] = 0x3f; b[7] = 0xff; b[2] = 0xff; b[3] = 0xff; b }),
             ];
             let (is_arp, bytes) = classic[e.choose(classic.len())].clone();
             if let Some(layer) = malformed_by_rfc(is_arp, &bytes).or(rejected_at(is_arp, &bytes)?) {
@@ -306,6 +326,7 @@ impl Check for MalformedFrames {
                 "ipv4" => "rejected_at_ipv4",
                 "udp" => "rejected_at_udp",
                 "tcp" => "rejected_at_tcp",
+                "fragment" => "lone_fragment",
                 _ => "rejected_at_arp",
             });
         }
